@@ -138,6 +138,24 @@ struct FindPrototypeByCallable : public FindPrototypeByCallableFromIndex <0, Pro
 {
 };
 
+// Drop the first N types of a HeterTuple.
+template <int N, typename PrototypeList_>
+struct SkipHeterTuple
+{
+	using Type = PrototypeList_;
+};
+
+template <int N, typename First, typename ...Others>
+struct SkipHeterTuple <N, HeterTuple<First, Others...> > : public SkipHeterTuple<N - 1, HeterTuple<Others...> >
+{
+};
+
+template <typename First, typename ...Others>
+struct SkipHeterTuple <0, HeterTuple<First, Others...> >
+{
+	using Type = HeterTuple<First, Others...>;
+};
+
 template <int N, typename PrototypeList_, typename ...InArgs>
 struct FindPrototypeByArgsFromIndex;
 
